@@ -183,3 +183,30 @@ Definition port_ok (p : str) : bool :=
   nonempty p && negb (has c_colon p) && no_brackets p.
 Definition is_digit (c : N) : bool := (48 <=? c)%N && (c <=? 57)%N.
 Definition digits (p : str) : bool := nonempty p && forallb is_digit p.
+
+(* ---- XMPPTransport.Connect on ONE transport object, several times (a client keeps its
+   transport for its whole life: Client.Connect, Client.Resume and the StreamManager call
+   transport.Connect() again for every reconnection).  The state that matters is
+   Config.Address; each Connect dials it (net.DialTimeout("tcp", t.Config.Address, ..)) and
+   leaves it alone, whatever the attempt's outcome - the peer address reached (Some r) or a
+   failure (None) - which is an input the model ignores. ---- *)
+Definition connect_step (address : str) (reached : option str) : str * str :=
+  (address, address).        (* (Config.Address afterwards, the address dialled) *)
+
+Fixpoint connects (address : str) (outcomes : list (option str)) : list str :=
+  match outcomes with
+  | [] => []
+  | o :: t => let '(a', dialled) := connect_step address o in dialled :: connects a' t
+  end.
+
+(* the addresses dialled by the successive Connects of the transport a constructor returns *)
+Definition client_dials (addr : str) (outcomes : list (option str)) : list str :=
+  match client_transport addr with
+  | Tcp a => connects a outcomes
+  | _ => []
+  end.
+Definition component_dials (addr : str) (outcomes : list (option str)) : list str :=
+  match component_transport addr with
+  | Tcp a => connects a outcomes
+  | _ => []
+  end.
